@@ -216,6 +216,21 @@ CHECKS.update({
     ),
 })
 
+CHECKS.update({
+    "C23": (
+        "typed generation (real-by-construction vs possibly-complex comparison operands); oracle = numerical imaginary part of every comparison operand under random complex data, value before/after, must-accept / must-raise classes",
+        "Hypothesis-generated integrands with comparison sites whose operands come from a typed 'real by construction' grammar "
+        "or from the unrestricted complex grammar (coefficients, complex literals, sqrt, fractional powers, ln/acos/asin of "
+        "possibly negative reals): whenever do_comparison_check accepts, every comparison/min/max operand must be "
+        "numerically real for random complex data and the value must be unchanged; real-by-construction programs must be "
+        "accepted; the check must terminate. Real mode: remove_complex_nodes on lowered expressions keeps the value for real "
+        "data, leaves no conj/real node, and must raise on imag nodes and complex literals.",
+        "Trusts the interpreter's complex arithmetic; a case that does not finish within its watchdog is reported as a "
+        "violation for this property only (cases take milliseconds; non-termination was the failure mode found).",
+        "4/C23",
+    ),
+})
+
 NOT_YET = {}
 
 
